@@ -60,6 +60,9 @@ CHECKS = {
     "C17": dict(cat="other", ref="DESIGN.md §4 C17", technique="CrossHair symbolic execution of the real rsync receiver co-simulated with the real sender methods over an in-memory file system; symbolic modes/mtimes/contents/prior target states/delete flag",
                 text="Bounded symbolic check of tree equality after send (kind, content, permission bits, file mtime), delete/no-delete semantics and the no-op re-sync, for single-file and small-tree skeletons with symbolic attributes and prior target states.",
                 note=E1_NOTE + "; the file system is an in-memory model, RSync.send()'s dispatch loop is replaced by an equivalent dispatcher over the same real methods; relative links/cwd, unusual names and real file systems are outside"),
+    "C16": dict(cat="other", ref="DESIGN.md §4 C16 (reduced scope)", technique="CrossHair symbolic execution of the real ProxyIO and the real serve_proxy_io forwarding loop / control dispatcher against the byte-stream contract (catalogue messages from the sub, symbolic bytes from the master, symbolic control code and chunking)",
+                text="Bounded symbolic check of the proxied transport's adapter contract (bytes unmodified and in order in both directions, control requests reach the matching sub-IO operation with exactly one reply). 'Identical transcripts of arbitrary channel programs on real transports' is a whole-system statement and is not decided; pipe/socket adapters are covered by C08.",
+                note=E1_NOTE + "; whole-system transcripts on real popen/socket/via gateways x exec models are outside"),
 }
 
 NOT_APPLICABLE = [
